@@ -248,6 +248,45 @@ func enumerate(doc string, root *jnode, emit func(path, kind string, mk func() [
 			}
 		}
 	}
+	// forged signed payloads: the header a signature carries is attacker-controlled input that is
+	// only seen after base64 decoding; sign every single-member mutation of a rich header and
+	// attach it to an envelope whose own header is that rich header
+	if root.kind == 'o' && !strings.HasPrefix(doc, "forged:") {
+		for i, k := range root.keys {
+			if k != "head" || root.kids[i].kind != 'o' {
+				continue
+			}
+			rich := c14RichHead(root.kids[i])
+			if rich == nil {
+				break
+			}
+			var rb bytes.Buffer
+			render(&rb, rich, nil)
+			richRaw := rb.String()
+			enumerate("forged:"+doc, rich, func(path, kind string, mkh func() []byte) {
+				emit("/sigs/0/payload"+path, "forged-"+kind, func() []byte {
+					sig, err := dsig.NewSignature(c14key, json.RawMessage(mkh()))
+					if err != nil {
+						sig, err = dsig.NewSignature(c14key, string(mkh()))
+						if err != nil {
+							return nil
+						}
+					}
+					var sb bytes.Buffer
+					render(&sb, root, &edit{target: root.kids[i], op: 'r', raw: richRaw})
+					out := sb.Bytes()
+					// replace or add the signature list
+					var m map[string]json.RawMessage
+					if json.Unmarshal(out, &m) != nil {
+						return nil
+					}
+					m["sigs"] = json.RawMessage(`["` + sig.String() + `"]`)
+					out, _ = json.Marshal(m)
+					return out
+				})
+			})
+		}
+	}
 	var walk func(n *jnode, path string, key string, depth int, inAddons bool)
 	walk = func(n *jnode, path string, key string, depth int, inAddons bool) {
 		if n != root {
@@ -301,6 +340,34 @@ func enumerate(doc string, root *jnode, emit func(path, kind string, mk func() [
 		}
 	}
 	walk(root, "", "", 0, false)
+}
+
+// c14RichHead returns a copy of a header object with stamps, links, tags, meta and notes present.
+func c14RichHead(h *jnode) *jnode {
+	var sb bytes.Buffer
+	render(&sb, h, nil)
+	var m map[string]json.RawMessage
+	if json.Unmarshal(sb.Bytes(), &m) != nil {
+		return nil
+	}
+	add := map[string]string{
+		"stamps": `[{"prv":"prv-a","val":"b"},{"prv":"prv-c","val":"d"}]`,
+		"links":  `[{"key":"a","url":"https://example.com/a"},{"key":"b","url":"https://example.com/b"}]`,
+		"tags":   `["x","y"]`,
+		"meta":   `{"a":"b"}`,
+		"notes":  `"n"`,
+	}
+	for k, v := range add {
+		if _, ok := m[k]; !ok {
+			m[k] = json.RawMessage(v)
+		}
+	}
+	b, _ := json.Marshal(m)
+	n, err := parseTree(b)
+	if err != nil {
+		return nil
+	}
+	return n
 }
 
 // ---------------------------------------------------------------------------------------------
@@ -527,6 +594,14 @@ func runPipeline(data []byte) []stageOut {
 	})
 	step("replicate", func(e *gobl.Envelope) error { _, err := e.Replicate(); return err })
 	step("verify-unsigned", func(e *gobl.Envelope) error { return e.Verify(c14key.Public()) })
+	step("verify-nokeys", func(e *gobl.Envelope) error {
+		err := e.Verify()
+		for _, s := range e.Signatures {
+			_ = e.VerifySignature(s)
+			_ = e.VerifySignature(s, c14key.Public())
+		}
+		return err
+	})
 	step("sign", func(e *gobl.Envelope) error { return e.Sign(c14key) })
 	step("verify", func(e *gobl.Envelope) error { return e.Verify(c14key.Public()) })
 	return outs
